@@ -479,6 +479,22 @@ def m_collect(ex, a, m):
         return ok(VecV(out))
     if target.startswith(('Vec<', 'std::vec::Vec<')) or not target:
         return VecV([Cell(i) for i in items])
+    tb = re.sub(r'^(std::collections::|alloc::collections::)?(btree_map::|hash_map::)?', '', target)
+    if tb.startswith(('BTreeMap<', 'HashMap<')):
+        mp = MapV(tb.startswith('BTreeMap<'))
+        for i in items:                      # FromIterator inserts in order: a later pair with the same key replaces the earlier one
+            mp.d[conc(ex, as_str(i.fields[0].v), 'map key')] = Cell(i.fields[1].v)
+        return mp
+    if tb.startswith(('BTreeSet<', 'HashSet<')):
+        mp = MapV(tb.startswith('BTreeSet<'))
+        for i in items: mp.d[conc(ex, as_str(i), 'set element')] = Cell(UNIT)
+        return mp
+    if tb.startswith('Option<'):
+        out = []
+        for i in items:
+            if i.variant == 'None': return none()
+            out.append(Cell(i.fields[0].v))
+        return some(VecV(out))
     raise Unsupported(f'collect into {target}')
 
 # ------------------------------------------------------------------------------------------ Option / Result combinators
@@ -973,6 +989,10 @@ def float_display_concretised(ex, v):
 def fmt_display(ex, v):
     v = deref_all(v)
     if isinstance(v, F64): return float_display_concretised(ex, v)
+    if isinstance(v, Bool):
+        c = v.concrete()
+        if c is None: c = ex.branch_bool(v)
+        return 'true' if c else 'false'
     if isinstance(v, StrV):
         c = v.concrete(); return c if c is not None else '<symstr>'
     if isinstance(v, Int):
